@@ -1,14 +1,28 @@
-TUS = ['src/base/QXmppMessage.cpp', 'src/base/QXmppStanza.cpp', 'src/base/QXmppUtils.cpp']
+TUS = ['src/base/QXmppMessage.cpp', 'src/base/QXmppStanza.cpp', 'src/base/QXmppUtils.cpp', 'src/base/QXmppGlobal.cpp']
 MODELS = ['qt_core.c', 'qt_list.c', 'qt_dom.c', 'c17_models.c']
-FIELDS = ['e2ee_fallback_body', 'private_msg', 'origin_id', 'body', 'subject', 'jmi', 'stamp']
+KF = 'd12_jmi_callinvite'
+PUBLIC_FIELDS = ['e2ee_fallback_body', 'private_msg', 'stanza_id', 'stanza_ids2', 'origin_id', 'mix_user', 'mix_jid', 'mix_nick', 'eme']
+BOTH_FIELDS = ['fallback_marker']
+SENSITIVE_FIELDS = ['body', 'subject', 'thread', 'oob_url', 'stamp', 'receipt_id', 'receipt_request', 'attention', 'bob', 'muc_invitation', 'replace_id', 'markable',
+                    'attach_id', 'spoiler', 'mix_invitation', 'trust_message', 'reaction', 'shared_file', 'file_sources', 'reply', 'jmi', 'call_invite']
+STR = 'every string value exactly 1 arbitrary UTF-16 unit (lengths concrete, contents symbolic), integers/date-time values full range'
 def I(name, entry, **kw):
-    d = dict(name=name, entry=entry, unwind=8, timeout_s=300, mem_gb=4, cdefs={'DOM_MAXCH': 6, 'DOM_MAXATTR': 16},
-             bound='strings 1..2 arbitrary UTF-16 units'); d.update(kw); return d
+    d = dict(name=name, entry=entry, unwind=8, timeout_s=300, mem_gb=4, object_bits=12, cdefs={'DOM_MAXCH': 6, 'DOM_MAXATTR': 16},
+             bound='message with only this field set; ' + STR); d.update(kw); return d
+def CASE(field, k, n, **kw):
+    return I('f_%s_c%d' % (field, k), 'h_f_' + field, cdefs={'DOM_MAXCH': 6, 'DOM_MAXATTR': 16, 'VP_CASE': k}, bound='message with only this field set (enum value %d of %d); %s' % (k, n, STR), **kw)
+FIELD_INSTANCES = ([I('f_' + f, 'h_f_' + f) for f in PUBLIC_FIELDS + BOTH_FIELDS + SENSITIVE_FIELDS]
+                   + [CASE('hint', k, 4) for k in range(4)]
+                   + [CASE('chat_state', k, 5, tiers=('quick', 'thorough') if k in (0, 4) else ('thorough',)) for k in range(5)]
+                   + [CASE('marker', k, 3, tiers=('quick', 'thorough') if k == 1 else ('thorough',)) for k in range(3)])
+KF_INSTANCES = [I('kf_jmi', 'h_kf_jmi', known_finding=KF), I('kf_call_invite', 'h_kf_call_invite', known_finding=KF)]
 SPEC = dict(
     property='C17',
     groups=[
         dict(name='msg', harness='h.cpp', tus=TUS, models=MODELS, cxxdefs={'_GLIBCXX_RANGES': 1},
-             instances=[I('f_' + f, 'h_f_' + f) for f in FIELDS]),
+             instances=FIELD_INSTANCES + KF_INSTANCES),
+        dict(name='dbg', harness='h.cpp', tus=TUS, models=MODELS, cxxdefs={'_GLIBCXX_RANGES': 1, 'C17_DEBUG': 1},
+             instances=[I('dbg%d' % k, 'h_dbg%d' % k, tiers=()) for k in (1, 2, 3, 4)]),
     ],
     bounds=[], assumptions=[], outside=[],
 )
